@@ -310,6 +310,9 @@ func children(v reflect.Value) []reflect.Value {
 			out = append(out, v.Elem())
 		}
 	case reflect.Slice, reflect.Array:
+		if v.Type().Elem().Kind() == reflect.Uint8 {
+			return nil // bytes are not descended into
+		}
 		for i := 0; i < v.Len(); i++ {
 			out = append(out, v.Index(i))
 		}
@@ -436,6 +439,58 @@ var ctors = []ctor{
 		s.Field(2).Set(x)
 		return s
 	}},
+}
+
+// longLengths are lengths around the usual chunk and buffer sizes of
+// streaming encoders and writers (and none is special for Base64's 3-byte
+// groups by construction: n-1, n, n+1 cover the three residues).
+var longLengths = []int{255, 256, 257, 511, 512, 513, 767, 768, 769, 1023, 1024, 1025, 3000, 5000}
+
+// longBytes has position-dependent content, so that a dropped, repeated or
+// reordered chunk changes the data.
+func longBytes(n int) []byte {
+	b := make([]byte, n)
+	for i := range b {
+		b[i] = byte(i*7 + i/256 + 3)
+	}
+	return b
+}
+
+// longString is exactly n bytes of valid UTF-8 with every kind of escaped
+// character spread over its whole length (no position is a multiple of a
+// power of two for long).
+func longString(n int) string {
+	pieces := []string{"a", "<", "b\"", "\\", "c", "\n", "\u00e9", "d", "\u2028", "'", "&", "\x00", "e</script>", "\U0001F600", "f>", "\t", "\u2029", "\r"}
+	var b strings.Builder
+	for i := 0; b.Len() < n; i++ {
+		p := pieces[i%len(pieces)] + strconv.Itoa(i%10)
+		if b.Len()+len(p) > n {
+			p = strings.Repeat("x", n-b.Len())
+		}
+		b.WriteString(p)
+	}
+	return b.String()
+}
+
+// longValues are the long byte slices and strings, alone and inside every
+// constructor.
+func longValues() []*val {
+	var level []*val
+	for _, n := range longLengths {
+		level = append(level, base(fmt.Sprintf("[]byte of %d bytes", n), "[]byte", longBytes(n)))
+	}
+	for _, n := range longLengths {
+		level = append(level, base(fmt.Sprintf("string of %d bytes with escapes", n), "string", longString(n)))
+	}
+	level = append(level, base("MyBytes of 1025 bytes", "named []byte", MyBytes(longBytes(1025))))
+	all := level
+	for _, k := range level {
+		t, x := k.elem()
+		for _, c := range ctors {
+			all = append(all, &val{label: c.name + " of " + k.label, cls: c.name, rv: c.make(t, x), kids: []*val{k}})
+		}
+	}
+	return all
 }
 
 func universe(depth int) []*val {
@@ -1367,14 +1422,20 @@ func spaces(tier string) []kit.Space {
 		}
 		c.anyTmpl = t
 	}
-	u := universe(depth)
+	return []kit.Space{
+		valueSpace(fmt.Sprintf("values to depth %d x 4 contexts x {any, concrete type}", depth), universe(depth)),
+		valueSpace("long byte slices and strings, alone and in every constructor x 4 contexts x {any, concrete type}", longValues()),
+	}
+}
+
+func valueSpace(name string, u []*val) kit.Space {
 	per := uint64(len(contexts) * 2)
 	size := uint64(len(u)) * per
 	at := func(i uint64) *shown {
 		r := i % per
 		return &shown{v: u[i/per], c: contexts[r/2], static: r%2 == 1}
 	}
-	var cache blocks.Cache[*shown]
+	cache := &blocks.Cache[*shown]{}
 	compute := func(from, to uint64) []*shown {
 		ss := make([]*shown, 0, to-from)
 		var codes [][]byte
@@ -1393,8 +1454,8 @@ func spaces(tier string) []kit.Space {
 		}
 		return ss
 	}
-	return []kit.Space{{
-		Name: fmt.Sprintf("values to depth %d x 4 contexts x {any, concrete type}", depth),
+	return kit.Space{
+		Name: name,
 		Size: size,
 		Eval: func(i uint64) kit.Outcome { return cache.Get(i, size, compute).outcome() },
 		Describe: func(i uint64) any {
@@ -1405,14 +1466,14 @@ func spaces(tier string) []kit.Space {
 			}
 			return map[string]string{"value": s.v.label, "Go value": goValue(s.v), "file": s.c.file, "template": s.c.source(), "static type of the global v": st}
 		},
-	}}
+	}
 }
 
 func main() {
 	kit.Main(&kit.Check{
 		ID:    "C08",
 		Level: "model_checking",
-		Rule:  "value universe = 101 base values (untyped nil; bools; min/max of every int and uint width, 2^53+1, uintptr; floats 0, -0, 1.5, 1e21, max, smallest denormal, NaN, ±Inf, float32 0.1/max/NaN/-Inf; strings empty, </script><!--<script>, U+2028/9, non-UTF-8, quotes and controls, astral; named string/int/[]byte; nil/empty/non-empty []byte; typed nil pointer/slice/map; time.Time in UTC, +02:00 with milliseconds, -03:30, year 0, year 10000, year -1, zone offset with seconds; error values; trusted native.JS/JSON and JSStringer/JSONStringer; a json.Marshaler; complex, func, chan; maps with <= 3 entries for every key kind: string incl. \"\", __proto__, integer-like and </script> keys, named string, bool, every int/uint width, uintptr, float32/64, complex64/128, a Stringer struct, interface, array) closed under 11 constructors ([]any{x}, []T{x}, []T{zero,x}, [1]T{x}, &x, map[string]any{k:x}, map[string]T{b:x,a:zero}, struct with json tags rename/omitempty/-/untagged/option-only/unexported, struct embedding a struct, struct of nil and non-nil *T fields with and without omitempty, struct of any fields) plus all 36 two-element []any over 6 representatives, to depth 2 (quick) / 3 (thorough); each value x {JS in <script>, JS in .js, JSON in .json, JSON in <script type=application/ld+json>} x {global of type any, global of the value's concrete type}. Non-trivial = the template built and ran, so an oracle judged the output",
+		Rule:  "value universe = 101 base values (untyped nil; bools; min/max of every int and uint width, 2^53+1, uintptr; floats 0, -0, 1.5, 1e21, max, smallest denormal, NaN, ±Inf, float32 0.1/max/NaN/-Inf; strings empty, </script><!--<script>, U+2028/9, non-UTF-8, quotes and controls, astral; named string/int/[]byte; nil/empty/non-empty []byte; typed nil pointer/slice/map; time.Time in UTC, +02:00 with milliseconds, -03:30, year 0, year 10000, year -1, zone offset with seconds; error values; trusted native.JS/JSON and JSStringer/JSONStringer; a json.Marshaler; complex, func, chan; maps with <= 3 entries for every key kind: string incl. \"\", __proto__, integer-like and </script> keys, named string, bool, every int/uint width, uintptr, float32/64, complex64/128, a Stringer struct, interface, array) closed under 11 constructors ([]any{x}, []T{x}, []T{zero,x}, [1]T{x}, &x, map[string]any{k:x}, map[string]T{b:x,a:zero}, struct with json tags rename/omitempty/-/untagged/option-only/unexported, struct embedding a struct, struct of nil and non-nil *T fields with and without omitempty, struct of any fields) plus all 36 two-element []any over 6 representatives, to depth 2 (quick) / 3 (thorough); plus, in both tiers, []byte values of 255, 256, 257, 511, 512, 513, 767, 768, 769, 1023, 1024, 1025, 3000 and 5000 bytes with position-dependent content, strings of the same byte lengths with every escaped character spread over them, and a named []byte of 1025 bytes, each alone and inside each of the 11 constructors; each value x {JS in <script>, JS in .js, JSON in .json, JSON in <script type=application/ld+json>} x {global of type any, global of the value's concrete type}. Non-trivial = the template built and ran, so an oracle judged the output",
 		Assumptions: []string{
 			"JavaScript oracle: /usr/bin/node v20 parses the output both as `[OUT\\n]` (exactly one element) and as `(OUT\\n)`, i.e. as exactly one AssignmentExpression, evaluates it, and the value is compared structurally (numbers by IEEE bits so -0 and NaN count, strings by UTF-16 code units, Date by toISOString, objects by Object.keys order and prototype) with the data model: nil → null; bool; every int/uint/float kind → the nearest float64 (float32 through its shortest decimal form, as encoding/json does); string → string (a non-UTF-8 byte → U+FFFD); error → its message; []byte → base64 string; other slices, arrays → array (nil slice → null); pointer → pointee or null; time.Time → Date of the same instant truncated to milliseconds; map → object whose properties are in ascending key order (integer-like keys first, ascending, as ECMAScript orders own properties), keys being the string / decimal / true|false / String() text; struct → object of the exported fields in field order honouring json tags (name, -, omitempty with encoding/json's notion of empty); complex, func, chan → undefined",
 			"where JavaScript has no standard counterpart the model follows the renderer and does not judge it: an embedded struct is a property named after its type, a named []byte is an array of numbers, a nil []byte is \"\"; map keys of complex kind are only counted (the object must have as many own properties as the map has entries); trusted code (native.JS, JSStringer) is only required to parse and evaluate",
